@@ -308,7 +308,8 @@ def w2(ctx, rep, e, r, oks, tag, where):
                 noise.append(at)
                 return True
             return False
-        return epdeg.admitted_guard(at, d)
+        return ep_admitted(at, d)
+    ep_admitted = epdeg.make_admitted_guard(A, e)
     base = epdeg.base_degree_fn(e)
 
     def base2(atom):
